@@ -490,7 +490,21 @@ def _size(case):
     return len(json.dumps(case["lexicon"])) + len(case["text"])
 
 
+def prime():
+    """Import everything the shards use BEFORE the workers are forked and before any Hypothesis draw: Hypothesis mixes
+    constants collected from the local modules in sys.modules into its draws, so the set of imported modules must not
+    depend on what a worker process happened to do earlier (otherwise results depend on the job count)."""
+    tree.activate_view()
+    lx = {"rules": [["", ["seq", [["bol"], ["nocase", ["rep1", ["any", "ab"]]], ["eol"]]], "S1"],
+                    ["S1", ["alt", [["anybut", "a"], ["opt", ["range", "a", "c"]], ["eof"]]], ""],
+                    ["", ["anychar"], None]]}
+    for text in ("ab\nBc", "", "zz\n"):
+        _mismatch(lx, text)
+    _mismatch({"rules": [["", ["str", "a"], None]]}, "b")
+
+
 def run(ctx):
+    prime()
     nlex = 100 if ctx.quick else 2500
     nlong = 4 if ctx.quick else 60
     ctx.pmap(_shard, [(ctx.seed, i, nlex, nlong) for i in range(16)])
@@ -528,7 +542,7 @@ def run(ctx):
 
 
 def replay(ctx, case):
-    tree.activate_view()
+    prime()
     r = _mismatch(case["lexicon"], case["text"])
     if r is None:
         return False, "engine and reference agree on %r" % case["text"][:60]
